@@ -481,6 +481,132 @@ theorem handleSendResponse_spec (cfg : Cfg) (st : St) (b : Batch) (r : ProdRes) 
       · intro k'; simp
       · intro k'; simp
 
+/-! ### what firing removes -/
+
+theorem deliver_removes (out sids : List Sid) (o : Outcome) (hn : out.Nodup) :
+    ∀ x ∈ (deliver out sids o).1, x ∉ sids := by
+  induction sids generalizing out with
+  | nil => intro x _ h; cases h
+  | cons s rest ih =>
+    intro x hx hc
+    simp only [deliver] at hx
+    split at hx
+    · have hsub := (deliver_fd (out.erase s) rest o).sub x hx
+      rcases List.mem_cons.mp hc with h | h
+      · subst h; exact hn.not_mem_erase hsub
+      · exact ih _ (hn.erase s) x hx h
+    · rename_i hs
+      rcases List.mem_cons.mp hc with h | h
+      · subst h; exact hs ((deliver_fd out rest o).sub x hx)
+      · exact ih _ hn x hx h
+
+theorem deliverMany_removes (out : List Sid) (l : List (List Sid × Outcome)) (hn : out.Nodup) :
+    ∀ x ∈ (deliverMany out l).1, ∀ sids o, (sids, o) ∈ l → x ∉ sids := by
+  induction l generalizing out with
+  | nil => intro x _ sids o h; cases h
+  | cons a rest ih =>
+    obtain ⟨s0, o0⟩ := a
+    intro x hx sids o hm
+    simp only [deliverMany] at hx
+    rcases List.mem_cons.mp hm with h | h
+    · injection h with h1 h2; subst h1
+      exact deliver_removes out sids o0 hn x ((deliverMany_fd _ rest).sub x hx)
+    · exact ih _ ((deliver_fd out s0 o0).nodup hn) x hx sids o h
+
+/-! ### success without a value (acks = 0) is for what was handed over -/
+
+theorem deliver_fires_out (out sids : List Sid) (o : Outcome) :
+    ∀ s o', Ob.fire s o' ∈ (deliver out sids o).2 → s ∈ out := by
+  induction sids generalizing out with
+  | nil => intro s o' h; simp [deliver] at h
+  | cons a rest ih =>
+    intro s o' h
+    simp only [deliver] at h
+    split at h
+    · rename_i ha
+      rcases List.mem_cons.mp h with h | h
+      · injection h with h1 _; rw [h1]; exact ha
+      · exact List.mem_of_mem_erase (ih _ s o' h)
+    · exact ih _ s o' h
+
+theorem checkRetry_okNone (cfg : Cfg) (st : St) (b : Batch) (f : List FailedP) (hnd : st.outstanding.Nodup) :
+    ∀ s, Ob.fire s .okNone ∈ (checkRetry cfg st b f).2.1 →
+      cfg.maxAttempts ≤ st.attempts ∧ ∀ x ∈ f, s ∉ b.sidsOf x.tp := by
+  intro s hm
+  simp only [checkRetry] at hm
+  split at hm
+  · simp at hm
+  · split at hm
+    · rename_i ha
+      rcases List.mem_append.mp hm with h | h
+      · obtain ⟨sids, h1, _⟩ := deliverMany_fires _ _ s _ h
+        obtain ⟨x, _, hx⟩ := List.mem_map.mp h1
+        injection hx with _ ho; cases ho
+      · split at h
+        · have hs := deliver_fires_out _ _ _ s _ h
+          refine ⟨ha, ?_⟩
+          intro x hx
+          exact deliverMany_removes _ _ hnd s hs (b.sidsOf x.tp) (.err x.kind) (List.mem_map.mpr ⟨x, hx, rfl⟩)
+        · simp at h
+    · split at hm <;> simp at hm
+
+theorem handleResults_okNone (cfg : Cfg) (st : St) (b : Batch) (rs : List Resp) (fs : List FailedP)
+    (hnd : st.outstanding.Nodup) :
+    ∀ s, Ob.fire s .okNone ∈ (handleResults cfg st b rs fs).2.1 →
+      cfg.maxAttempts ≤ st.attempts ∧
+      ∀ tp ∈ fs.map (·.tp) ++ (rs.filter (·.error ≠ 0)).map (·.tp), s ∉ b.sidsOf tp := by
+  intro s hm
+  have good : ∀ o, Ob.fire s o ∈ (deliverMany st.outstanding
+      ((rs.filter (·.error = 0)).map (fun r => (b.sidsOf r.tp, Outcome.ok r)))).2 → ∃ r, o = .ok r := by
+    intro o h
+    obtain ⟨sids, h1, _⟩ := deliverMany_fires _ _ s o h
+    obtain ⟨x, _, hxe⟩ := List.mem_map.mp h1
+    injection hxe with _ e2
+    exact ⟨x, e2.symm⟩
+  simp only [handleResults] at hm
+  split at hm
+  · obtain ⟨r, hr⟩ := good _ hm; cases hr
+  · dsimp only at hm
+    rcases List.mem_append.mp hm with h | h
+    · obtain ⟨r, hr⟩ := good _ h; cases hr
+    · obtain ⟨c1, c2⟩ := checkRetry_okNone cfg _ _ _ ((deliverMany_fd _ _).nodup hnd) s h
+      refine ⟨c1, ?_⟩
+      intro tp htp
+      rcases List.mem_append.mp htp with h1 | h1
+      · obtain ⟨x, hx, hxt⟩ := List.mem_map.mp h1
+        have := c2 x (List.mem_append_left _ hx)
+        rw [hxt] at this; exact this
+      · obtain ⟨x, hx, hxt⟩ := List.mem_map.mp h1
+        have := c2 ⟨x.tp, .broker x.error, false⟩ (List.mem_append_right _ (List.mem_map.mpr ⟨x, hx, rfl⟩))
+        rw [hxt] at this; exact this
+
+/-- `None` as a success value: only for the empty answer, or when the answer ends the batch for good (no attempt
+    left) and the send rides on none of the payloads it reports failed -/
+theorem handleSendResponse_okNone (cfg : Cfg) (st : St) (b : Batch) (r : ProdRes) (hnd : st.outstanding.Nodup) :
+    ∀ s, Ob.fire s .okNone ∈ (handleSendResponse cfg st b r).2.1 →
+      (r = .none ∨ r = .responses []) ∨
+      (cfg.maxAttempts ≤ st.attempts ∧ ∀ tp ∈ failedTps b.live r, s ∉ b.sidsOf tp) := by
+  intro s hm
+  cases r with
+  | none => exact Or.inl (Or.inl rfl)
+  | responses rs =>
+    cases rs with
+    | nil => exact Or.inl (Or.inr rfl)
+    | cons x rest =>
+      simp only [handleSendResponse] at hm
+      have := handleResults_okNone cfg st b (x :: rest) [] hnd s hm
+      exact Or.inr (by simpa [failedTps] using this)
+  | failed rs fs =>
+    simp only [handleSendResponse] at hm
+    exact Or.inr (by simpa [failedTps] using handleResults_okNone cfg st b rs fs hnd s hm)
+  | err k =>
+    simp only [handleSendResponse] at hm
+    split at hm
+    · have := handleResults_okNone cfg st b [] (b.live.map (fun tp => ⟨tp, k, true⟩)) hnd s hm
+      exact Or.inr (by simpa [failedTps, List.map_map, Function.comp_def] using this)
+    · obtain ⟨h1, _⟩ := (deliverAll_spec st b (.err k)).1 s _ hm
+      cases h1
+
 /-- after `finish`: either the handler left a retry pending, or the completion hook ran -/
 theorem finish_spec (cfg : Cfg) (st' : St) (obs : List Ob) (resolved : Bool) :
     (resolved = false → (finish cfg (st', obs, resolved)) = (st', obs)) ∧
